@@ -8,6 +8,7 @@ for d in seeded/*/; do
   name=$(basename $d)
   [ -f $d/patch.diff ] || continue
   prop=$(python3 -c "import json;print(json.load(open('$d/meta.json'))['property'])")
+  if python3 -c "import json,sys;sys.exit(0 if json.load(open('$d/meta.json')).get('obsolete_at_head') else 1)"; then echo "$name $prop OBSOLETE-AT-HEAD (see meta.json)" | tee -a $out; continue; fi
   wt=/tmp/seeded-run-$$-$name
   git -C /repo worktree add -q $wt HEAD || continue
   if ! git -C $wt apply $PWD/$d/patch.diff 2>/dev/null; then echo "$name $prop APPLY-FAILED" | tee -a $out; git -C /repo worktree remove --force $wt; continue; fi
